@@ -2,6 +2,8 @@
     This file contains only the property theorems; proofs are in G711Proofs, IeeeProofs, Endian, AdpcmProofs. *)
 From Coq Require Import ZArith List Lia Bool.
 From SF Require Import Bits Fp G711 G711Proofs Ieee IeeeProofs Endian.
+From SF Require Isolation Adpcm AdpcmProofs.
+From SFGen Require Gen_Adpcm.
 Import ListNotations.
 Local Open Scope Z_scope.
 
@@ -69,6 +71,44 @@ Proof. exact get_put_be. Qed.
 Theorem get_put_le_inverse : forall n v, (0 < n)%nat -> in_int (8 * Z.of_nat n) v -> get_le n (put_le n v) = v.
 Proof. exact get_put_le. Qed.
 
+
+(** ---- ADPCM decoders.  The tables compiled into the library are the published IMA tables; a decoder step yields a 16-bit
+    sample and keeps the index in the table for ANY code and state; the difference needs 17 signed bits (bounded by 61436,
+    reached at the top of the table); and the library's interleaved block decoder gives each channel exactly the reference
+    decoding of its own code stream -- any channel count, block length and block bytes. *)
+Theorem ima_tables_are_published : Gen_Adpcm.ima_step_size = Adpcm.ref_step_table /\ Gen_Adpcm.ima_indx_adjust = Adpcm.ref_index_table.
+Proof. exact AdpcmProofs.ima_tables_published. Qed.
+
+Theorem ima_decoder_step_in_range : forall code s,
+  let '(s', o) := Adpcm.ima_step Gen_Adpcm.ima_step_size Gen_Adpcm.ima_indx_adjust code s in
+  -32768 <= o <= 32767 /\ Adpcm.pred s' = o /\ 0 <= Adpcm.idx s' <= 88.
+Proof. exact (AdpcmProofs.ima_step_range Gen_Adpcm.ima_step_size Gen_Adpcm.ima_indx_adjust). Qed.
+
+Theorem ima_difference_needs_17_bits :
+  forallb (fun st => forallb (fun c => Z.abs (Adpcm.ima_diff st c) <=? 61436) AdpcmProofs.codes16) Adpcm.ref_step_table = true /\
+  Adpcm.ima_diff (Adpcm.nthz Adpcm.ref_step_table 88) 7 = 61436 /\ Adpcm.ima_diff (Adpcm.nthz Adpcm.ref_step_table 82) 7 > 32767.
+Proof. exact (conj AdpcmProofs.ima_diff_bound AdpcmProofs.ima_diff_exceeds_int16). Qed.
+
+Theorem ima_wav_decoder_is_reference : forall (nch : nat) (block : list Z) (c : Z),
+  let st := Gen_Adpcm.ima_step_size in let it := Gen_Adpcm.ima_indx_adjust in
+  let hdrs := Adpcm.chunks 4 nch (firstn (4 * nch) block) in
+  let st0 := fun k => Adpcm.wav_header_state (nth (Z.to_nat k) hdrs []) in
+  let tagged := Adpcm.wav_body_codes nch (skipn (4 * nch) block) in
+  let '(_, outs) := Isolation.srun Adpcm.ist Z Z unit (Adpcm.ima_step st it) (fun _ _ g => g) (st0, tt) tagged in
+  Isolation.mine c outs = snd (Adpcm.ima_stream st it (st0 c) (Isolation.mine c tagged)).
+Proof. exact (AdpcmProofs.wav_block_is_per_channel Gen_Adpcm.ima_step_size Gen_Adpcm.ima_indx_adjust). Qed.
+
+Theorem ima_wav_channel_streams : forall b0 b1 b2 b3 b4 b5 b6 b7,
+  Isolation.mine 0 (Adpcm.group_codes [[b0; b1; b2; b3]]) = flat_map Adpcm.nibbles [b0; b1; b2; b3] /\
+  Isolation.mine 0 (Adpcm.group_codes [[b0; b1; b2; b3]; [b4; b5; b6; b7]]) = flat_map Adpcm.nibbles [b0; b1; b2; b3] /\
+  Isolation.mine 1 (Adpcm.group_codes [[b0; b1; b2; b3]; [b4; b5; b6; b7]]) = flat_map Adpcm.nibbles [b4; b5; b6; b7].
+Proof. intros. exact (conj (AdpcmProofs.group_codes_mono b0 b1 b2 b3) (AdpcmProofs.group_codes_stereo b0 b1 b2 b3 b4 b5 b6 b7)). Qed.
+
+Theorem ms_decoder_step_in_range : forall code s,
+  let '(s', o) := Adpcm.ms_step Gen_Adpcm.ms_adaptation_table Gen_Adpcm.ms_coeff1 Gen_Adpcm.ms_coeff2 code s in
+  -32768 <= o <= 32767 /\ 16 <= Adpcm.idelta s' <= 32767 /\ Adpcm.s1 s' = o /\ Adpcm.s2 s' = Adpcm.s1 s /\ Adpcm.bp s' = Adpcm.bp s.
+Proof. exact (AdpcmProofs.ms_step_range Gen_Adpcm.ms_adaptation_table Gen_Adpcm.ms_coeff1 Gen_Adpcm.ms_coeff2). Qed.
+
 (** non-vacuity: the hypotheses are met by concrete values *)
 Example c20_nonvacuous : is_short (-32768) /\ is_int32 2147483647 /\ (1 <= 27 <= 254 /\ 0 <= 0 < 2 ^ 23)
   /\ c_s2ulaw (-32768) = Some 0 /\ c_ulaw2s 0 = Some (-32124).
@@ -94,3 +134,8 @@ Print Assumptions native32_is_the_pattern.
 Print Assumptions endswap_involution.
 Print Assumptions get_put_be_inverse.
 Print Assumptions get_put_le_inverse.
+Print Assumptions ima_tables_are_published.
+Print Assumptions ima_decoder_step_in_range.
+Print Assumptions ima_difference_needs_17_bits.
+Print Assumptions ima_wav_decoder_is_reference.
+Print Assumptions ms_decoder_step_in_range.
